@@ -173,7 +173,7 @@ def gen_points(rng, fam, L):
     return p1[:60], p2[:60]
 
 
-FAMILIES = ['pairs', 'seam', 'pole', 'dups', 'allsky', 'smallchunk', 'polebound', 'highdec', 'dtype', 'threshold', 'edges', 'convex']
+FAMILIES = ['pairs', 'seam', 'pole', 'dups', 'allsky', 'smallchunk', 'polebound', 'highdec', 'dtype', 'arc', 'threshold', 'edges', 'convex']
 
 
 def polebound_case(rng):
@@ -322,7 +322,93 @@ def dtype_case(rng):
                        'maxmatch': rng.choice([0, 0, 1, 2]), 'dtype': dt})
 
 
+ARC_DECS = [-70.0, -45.0, -20.0, 0.0, 10.0, 30.0, 55.0, 75.0]
+
+
+def arc_case(rng):
+    """a wide arc (or nearly a ring) of list-1 points at one declination that straddles RA 0/360, its start swept over a
+    lattice of offsets from each of the six trial seams of chunks.rarange(); partners (list 2) just beyond both ends of the
+    arc and next to points inside it; match length from a fraction of a chunk to several degrees"""
+    L = rng.choice([0.2, 0.5, 1.0, 2.0, 3.0, 5.0])
+    t = rng.random()
+    chunk = None if t < 0.35 else (4.0 * L if t < 0.7 else L * rng.choice([5.0, 8.0, 12.0]))
+    cs = chunk if chunk is not None else max(4.0 * L, 0.1)
+    dec = rng.choice(ARC_DECS) + rng.uniform(-3, 3)
+    cosd = math.cos(dec * D2R)
+    cw = cs / cosd
+    width = rng.choice([20.0, 60.0, 100.0, 150.0, 200.0, 260.0, 320.0, 345.0]) + rng.uniform(-8, 8)
+    j = rng.randrange(6)
+    off = rng.choice([-2.0, -1.5, -1.0, -0.6, -0.3, -0.1, 0.0, 0.1, 0.3, 0.6, 1.0, 1.5, 2.0]) * cw
+    if rng.random() < 0.5:
+        start = 360.0 - 60.0 * j + off                     # the arc STARTS near a trial seam
+    else:
+        start = 360.0 - 60.0 * j + off - width             # the arc ENDS near a trial seam
+    n1 = rng.randint(6, 22)
+    ras = [start + width * k / (n1 - 1) for k in range(n1)]
+    p1 = [(norm_ra(r), dec + rng.uniform(-0.3, 0.3) * L) for r in ras]
+    p2 = []
+    for end, sgn in ((0, -1.0), (n1 - 1, 1.0)):
+        for f in rng.sample([0.3, 0.6, 0.75, 0.9, 0.97, 1.05], 3):
+            p2.append((norm_ra(ras[end] + sgn * f * L / cosd), p1[end][1]))
+    for _ in range(rng.randint(0, 4)):
+        a = rng.choice(p1)
+        p2.append(offset_point(a[0], a[1], L * rng.choice([0.5, 0.9, 1.1]), rng.uniform(0, 360)))
+    rng.shuffle(p2)
+    return limit_cost({'fam': 'arc', 'ra1': [p[0] for p in p1], 'dec1': [p[1] for p in p1], 'ra2': [p[0] for p in p2],
+                       'dec2': [p[1] for p in p2], 'L': L, 'chunksize': chunk, 'maxmatch': 0})
+
+
+def history_cases(rng):
+    """a history = several spherematch calls made one after the other in ONE implementation process"""
+    def small(fam):
+        for _ in range(50):
+            c = gen_case(rng, fam)
+            if admissible(c) and len(c['ra1']) <= 14 and len(c['ra2']) <= 14:
+                return c
+        return None
+    base = small(rng.choice(['pairs', 'dups', 'seam', 'dtype']))
+    if base is None:
+        return None
+    kind = rng.choice(['same-first-list', 'identical-call-repeated', 'equal-length-first-lists', 'mixed'])
+    h = [base]
+    for _ in range(rng.randint(2, 3)):
+        prev = h[-1]
+        c = dict(prev)
+        k2 = kind if kind != 'mixed' else rng.choice(['same-first-list', 'identical-call-repeated', 'equal-length-first-lists'])
+        if k2 == 'same-first-list':
+            # same first list and chunk size, another second list: partners of other points at other distances
+            L = prev['L']
+            p2 = []
+            for a, d in zip(prev['ra1'], prev['dec1']):
+                if rng.random() < 0.7:
+                    p2.append(offset_point(float(a), float(d), L * rng.choice([0.3, 0.9, 1.1, 0.6]), rng.uniform(0, 360)))
+            if not p2:
+                p2.append(offset_point(float(prev['ra1'][0]), float(prev['dec1'][0]), L * 0.5, 10.0))
+            if prev.get('dtype'):
+                p2 = [(int(round(x)) % 360, max(-89, min(89, int(round(y))))) for x, y in p2]
+            c['ra2'], c['dec2'] = [p[0] for p in p2], [p[1] for p in p2]
+            c['maxmatch'] = rng.choice([0, 0, 1, 2])
+        elif k2 == 'equal-length-first-lists':
+            o = small(prev['fam'] if prev['fam'] in ('pairs', 'dups', 'seam') else 'pairs')
+            if o is None:
+                continue
+            n = min(len(o['ra1']), len(prev['ra1']))
+            if n < 2:
+                continue
+            c = dict(o)
+            c['ra1'], c['dec1'] = o['ra1'][:n], o['dec1'][:n]
+            if len(prev['ra1']) > n:
+                h[-1] = dict(prev, ra1=prev['ra1'][:n], dec1=prev['dec1'][:n])
+            c['chunksize'] = prev['chunksize'] if rng.random() < 0.5 else c['chunksize']
+        h.append(c)
+    for c in h:
+        c['history_kind'] = kind
+    return [c for c in h if admissible(c)]
+
+
 def gen_case(rng, fam):
+    if fam == 'arc':
+        return arc_case(rng)
     if fam == 'dtype':
         return dtype_case(rng)
     if fam == 'smallchunk' and rng.random() < 0.3:
@@ -592,6 +678,78 @@ def admissible(case):
             all(abs(d) < 90.0 for d in case['dec1'] + case['dec2']))
 
 
+def screen_batch(cases, timeout=1500):
+    if not cases:
+        return []
+    nb = min(C.NPROC, len(cases))
+    batches = [cases[i::nb] for i in range(nb)]
+    outs = C.run_impl_parallel('c04_impl.py', [{'mode': 'screen', 'cases': bt} for bt in batches], timeout=timeout)
+    sus = []
+    for bi, o in enumerate(outs):
+        sus += [bi + k * nb for k in o['suspicious']]
+    return sorted(sus)
+
+
+def run_histories(hists, timeout=1500):
+    if not hists:
+        return []
+    nb = min(C.NPROC, len(hists))
+    batches = [hists[i::nb] for i in range(nb)]
+    outs = C.run_impl_parallel('c04_impl.py', [{'mode': 'history', 'histories': bt} for bt in batches], timeout=timeout)
+    res = [None] * len(hists)
+    for bi, o in enumerate(outs):
+        for k, r in enumerate(o['histories']):
+            res[bi + k * nb] = r
+    return res
+
+
+def check_histories(ctx, cc_header):
+    """multi-call histories inside one implementation process: every result, as the caller holds it after the LAST call of
+    the history, must satisfy match_ok for its own call; caller-owned inputs must be unchanged"""
+    rng = ctx.rng
+    hists = [h for h in (history_cases(rng) for _ in range(ctx.n(12, 200))) if h and len(h) >= 2]
+    hres = run_histories(hists)
+    terms, where = [], []
+    for hi, (h, rs) in enumerate(zip(hists, hres)):
+        for ci, (c, r) in enumerate(zip(h, rs)):
+            if not r.get('inputs_unchanged', True):
+                ctx.violation('C04:history:inputs-modified', 'spherematch modified a caller-owned coordinate array (call %d of a history)' % ci,
+                              {'kind': 'failing-input', 'history': h, 'call_index': ci}, True)
+            if 'ok' not in r:
+                ctx.violation('C04:history:raise:%s' % r.get('err'),
+                              'call %d of a %d-call history (%s) raised %s (%s); the same call made alone is checked by the ordinary families' % (
+                                  ci, len(h), c.get('history_kind'), r.get('err'), r.get('msg', '')[:60]),
+                              {'kind': 'failing-input', 'history': h, 'call_index': ci, 'impl_result': {k: v for k, v in r.items() if k != 'sep'}}, True)
+                continue
+            if near_threshold(c, r):
+                continue
+            terms.append(case_term(c, r, with_rec=False))
+            where.append((hi, ci))
+    cc = C.CoqCases(ctx.work, cc_header, 'run_cases', shard=max(4, len(terms) // (2 * C.NPROC) + 1))
+    verdicts = cc.run(terms, tag='hist') if terms else []
+    bad = 0
+    seen = set()
+    for (hi, ci), v in zip(where, verdicts):
+        if v == 0:
+            continue
+        bad += 1
+        h, r = hists[hi], hres[hi][ci]
+        overwritten = r.get('immediate') != r.get('ok')
+        sig = 'C04:history:%s' % ('result-overwritten-by-later-call' if overwritten else 'result-depends-on-earlier-calls')
+        if sig in seen:
+            continue
+        seen.add(sig)
+        ctx.violation(sig, 'call %d of a %d-call history (%s) in one process: the result the caller holds after the last call is rejected by '
+                           'match_ok (%s)' % (ci, len(h), h[ci].get('history_kind'),
+                                              'it was correct when returned and changed afterwards' if overwritten else 'already wrong when returned'),
+                      {'kind': 'failing-input', 'history': h, 'call_index': ci, 'held_result': r.get('ok'), 'result_when_returned': r.get('immediate'),
+                       'diagnosis': diagnose(h[ci], r), 'verdict': v,
+                       'meaning': 'every call of the history is an admissible input on its own; match_ok (C04_match_ok_iff) is evaluated in Coq on '
+                                  'the arrays the caller holds after the last call against the brute-force table of that call'}, True)
+    ctx.coverage['histories'] = {'histories': len(hists), 'calls_checked_in_coq': len(terms), 'rejected': bad,
+                                 'kinds': sorted(set(h[0].get('history_kind') for h in hists))}
+
+
 def run_batch(cases):
     nb = min(C.NPROC, max(1, len(cases)))
     batches = [cases[i::nb] for i in range(nb)]
@@ -613,10 +771,18 @@ def correspond(ctx, proof_ok=True):
     for fam in FAMILIES:
         if fam in ('edges', 'threshold', 'convex'):
             continue
-        for _ in range({'smallchunk': ctx.n(60, 1200), 'polebound': ctx.n(8, 100), 'dtype': ctx.n(16, 300)}.get(fam, n_per)):
+        for _ in range({'smallchunk': ctx.n(60, 1200), 'polebound': ctx.n(8, 100), 'dtype': ctx.n(16, 300), 'arc': ctx.n(12, 300)}.get(fam, n_per)):
             c = gen_case(rng, fam)
             if admissible(c):
                 cases.append(c)
+    # arcs straddling RA 0/360, screened in volume by an uncertified brute-force comparison inside the implementation
+    # process; every suspicious case goes through the full recorded run and the Coq evaluation like any other case
+    arcs = [c for c in (arc_case(rng) for _ in range(ctx.n(3000, 60000))) if admissible(c)]
+    arc_sus = screen_batch(arcs)
+    cases += [arcs[k] for k in arc_sus[:8]]
+    ctx.coverage['screened'] = {'arc_cases': len(arcs), 'arc_suspicious': len(arc_sus),
+                                'rule': 'screening = real spherematch call (maxmatch=0) whose pair set is compared, uncertified, with '
+                                        'the brute-force pair set inside the implementation process'}
     results, info = run_batch(cases)
     ctx.coverage['pydl_file'] = info['pydl_file']
     # second phase: edge placements and exact-threshold cases derived from the first runs
@@ -715,6 +881,7 @@ def correspond(ctx, proof_ok=True):
                            'note': 'either the source of getbounds changed, or a double-precision evaluation landed on the other side of a '
                                    'comparison than the exact one'}, False)
             break
+    check_histories(ctx, HEADER)
     seen = set()
     for n, v in zip(idx, verdicts):
         if v == 0:
@@ -747,6 +914,16 @@ def correspond(ctx, proof_ok=True):
 
 
 def replay(ctx, rep):
+    if rep.get('history'):
+        h = rep['history']
+        rs = C.run_impl('c04_impl.py', {'mode': 'history', 'histories': [h]})['histories'][0]
+        for ci, (c, r) in enumerate(zip(h, rs)):
+            print('call %d: L=%r chunksize=%r maxmatch=%r n1=%d n2=%d' % (ci, c['L'], c['chunksize'], c['maxmatch'], len(c['ra1']), len(c['ra2'])))
+            print('   when returned  :', r.get('immediate', r.get('err')))
+            print('   after last call:', r.get('ok'))
+            if 'ok' in r:
+                print('   diagnosis of the held result:', {k: v for k, v in diagnose(c, r).items() if v})
+        return 0
     c = rep.get('call')
     if not c:
         print('replay file has no call (kind=%s, item=%s)' % (rep.get('kind'), rep.get('item')))
